@@ -56,11 +56,11 @@ class Result(object):
         # keep at most a few examples per signature per shard
         same = sum(1 for v in self.violations if v['sig'] == sig)
         if same < 3:
-            self.violations.append({'sig': sig, 'case': case, 'expected': expected, 'observed': observed, 'note': note})
+            self.violations.append({'sig': sig, 'case': jsonable(case), 'expected': jsonable(expected), 'observed': jsonable(observed), 'note': note})
 
     def sample(self, s):
         if len(self.samples) < 2:
-            self.samples.append(s)
+            self.samples.append(jsonable(s))
 
     def pack(self):
         d = dict(self.__dict__)
